@@ -8,6 +8,7 @@ pub mod c10;
 pub mod c11;
 pub mod c16;
 pub mod c19;
+pub mod srvchecks;
 
 pub struct CheckDef {
     pub id: &'static str,
@@ -20,7 +21,15 @@ pub struct CheckDef {
 }
 
 pub fn all() -> Vec<CheckDef> {
-    vec![c10::def(), c11::def(), c16::def(), c19::def()]
+    vec![
+        srvchecks::def_c03(),
+        srvchecks::def_c04(),
+        c10::def(),
+        c11::def(),
+        srvchecks::def_c15(),
+        c16::def(),
+        c19::def(),
+    ]
 }
 
 pub fn cores() -> usize {
